@@ -8,6 +8,7 @@ fairness and the timing of `queueScanLoop`: not provable here (see the note befo
 import Nsq.Proofs.ChanCount
 import Nsq.Props.C02
 import Nsq.Proofs.ChanNsqd
+import Nsq.Proofs.ChanScan
 namespace Nsq.Props.C01
 open Nsq.Model.Chan Nsq.Proofs.Chan
 
@@ -157,6 +158,37 @@ theorem timeoutOne_requeues {conf : Conf} {c : Chan} (h : C02.Reachable conf c) 
     · left
       simp only [h1, h2, ↓reduceIte, Bool.false_eq_true]
       exact ⟨_, mem_setE.2 ⟨e, he, rfl⟩, by simp⟩
+
+/-- … and the scan is complete: after `scanInFlight t` no message is in flight with a deadline
+`≤ t` — whoever held it, connected or not (each due message was re-queued, or dropped by a full
+ephemeral queue) -/
+theorem scan_releases_all_due {conf : Conf} {c : Chan} (h : C02.Reachable conf c) (t : Int) :
+    ∀ e ∈ (step conf c (.scanInFlight t)).1.msgs, ∀ k p d, e.loc = .inflight k p d → t < p := by
+  have hi := C02.reachable_inv h
+  simp only [step]
+  have key : ∀ (l : List Nat) (c' : Chan) (done : List Nat), Inv 0 c' →
+      (∀ e ∈ c'.msgs, isInflight e = true → e ∈ c.msgs ∧ e.id ∉ done) →
+      ∀ e ∈ (l.foldl timeoutOne c').msgs, isInflight e = true → e ∈ c.msgs ∧ e.id ∉ done ∧ e.id ∉ l := by
+    intro l
+    induction l with
+    | nil => intro c' done _ hsub e he hin; exact ⟨(hsub e he hin).1, (hsub e he hin).2, by simp⟩
+    | cons x l ih =>
+      intro c' done hi' hsub e he hin
+      simp only [List.foldl_cons] at he
+      have hstep : ∀ e' ∈ (timeoutOne c' x).msgs, isInflight e' = true → e' ∈ c.msgs ∧ e'.id ∉ x :: done := by
+        intro e' he' hin'
+        obtain ⟨h1, h2⟩ := timeoutOne_inflight hi' x e' he' hin'
+        obtain ⟨h3, h4⟩ := hsub e' h1 hin'
+        exact ⟨h3, by simp only [List.mem_cons, not_or]; exact ⟨h2, h4⟩⟩
+      obtain ⟨r1, r2, r3⟩ := ih (timeoutOne c' x) (x :: done) (inv_timeoutOne hi' x) hstep e he hin
+      simp only [List.mem_cons, not_or] at r2 ⊢
+      exact ⟨r1, r2.2, r2.1, r3⟩
+  intro e he k p d hl
+  have hin : isInflight e = true := by simp [isInflight, hl]
+  obtain ⟨h1, _, h3⟩ := key (dueInflight c t) c [] hi (fun e' he' _ => ⟨he', by simp⟩) e he hin
+  apply Classical.byContradiction
+  intro hnot
+  exact h3 (timeout_enabled h1 hl (by omega))
 
 /-- a deferred message whose time has come is picked up by the deferred scan -/
 theorem deferred_enabled {c : Chan} {e : Entry} (he : e ∈ c.msgs) {p : Int}
